@@ -116,6 +116,28 @@ Theorem C05_orig_finalize_ignored_dict_keys :
   exists s', finalize s = (s', Raise "ValueError").
 Proof. exact MacroOperProofs.C05_orig_finalize_ignored_dict_keys. Qed.
 
+(* a dict literal in a bound value is the Python dict that the parser's dict(items) builds when the statement is parsed:
+   keys that are equal then -- the same macro or reference written twice (same scopes, configurable and flag), 1 / True,
+   equal tuples -- are ONE item (the earlier key and place, the later value), a key that cannot be hashed raises TypeError *)
+Theorem C05_resolve_dict_is_python_dict : forall s l l', rs_dict s l = Ok l' ->
+  resolve s (VDict l) = match vdict_build l' with Some d => Ok (VDict d) | None => Raise "TypeError" end.
+Proof. exact MacroOperProofs.resolve_dict_is_python_dict. Qed.
+Theorem C05_parse_time_dict_example :
+  let sg := {| s_args := ["b"]; s_defaults := []; s_varargs := false; s_kwonly := []; s_varkw := false |} in
+  let pf := {| c_sel := "m.f"; c_kind := KProbe; c_sig := sg; c_allow := []; c_deny := []; c_method := false |} in
+  let pg := {| c_sel := "n.g"; c_kind := KProbe; c_sig := sg; c_allow := []; c_deny := []; c_method := false |} in
+  let s := run_top 50 (setup [pf; pg])
+     [OParse "hk" (VInt 5);
+      OParse "f.b" (VDict [(VMacro "hk", VStr "a"); (VInt 1, VStr "x"); (VMacro "hk", VStr "b"); (VBool true, VStr "y");
+                           (VRef [] "g" true, VMacro "undefined"); (VRef [] "n.g" true, VInt 3); (VRef ["s1"] "g" true, VInt 4)])] in
+  let s' := run_top 50 s [OParse "f.b" (VDict [(VInt 1, VInt 2); (VList [VInt 1], VMacro "undefined")])] in
+  cget ("", "m.f") (config s) =
+    Some [("b", VDict [(VRef ["hk"] "gin.macro" true, VStr "b"); (VInt 1, VStr "y");
+                       (VRef [] "n.g" true, VInt 3); (VRef ["s1"] "n.g" true, VInt 4)])] /\
+  macros_hook_ok s = true /\
+  config s' = config s /\ hd ONone (obs s') = OErr "TypeError".
+Proof. exact MacroOperProofs.parse_time_dict_example. Qed.
+
 Print Assumptions C05_use_is_reference.
 Print Assumptions C05_definition_is_binding.
 Print Assumptions C05_resolution_is_static.
@@ -131,3 +153,5 @@ Print Assumptions C05_hook_sees_dict_keys.
 Print Assumptions C05_flat_values_dict_iff.
 Print Assumptions C05_finalize_rejects_bad_macro_key.
 Print Assumptions C05_orig_finalize_ignored_dict_keys.
+Print Assumptions C05_resolve_dict_is_python_dict.
+Print Assumptions C05_parse_time_dict_example.
